@@ -3,7 +3,7 @@
 From Coq Require Import ZArith List Bool QArith Qcanon Field FMapPositive.
 Import ListNotations.
 Require Import MV.Lib.Base MV.C06.Base MV.C06.Gen MV.C06.Model MV.C06.Run MV.C06.Proofs_Heap MV.C06.Proofs_World
-               MV.C06.Proofs_Step MV.C06.Proofs_Merge MV.C06.Proofs_Alg MV.C06.Proofs_Norm.
+               MV.C06.Proofs_Step MV.C06.Proofs_Merge MV.C06.Proofs_Alg MV.C06.Proofs_Norm MV.C06.Proofs_Sep.
 
 Lemma Qc_field : field_theory (z0 QcO) (o1 QcO) (add QcO) (mul QcO) (sub QcO) (opp QcO) (div QcO)
                               (fun x => div QcO (o1 QcO) x) (@eq Qc).
@@ -34,7 +34,7 @@ Qed.
 
 (* a concrete history: array, mesh over it, the same mesh merged twice, a copy, transforms and an edit *)
 Definition ex_hist : list (op (T:=Qc)) :=
-  [ ONew [IFresh (q 0 1, q 0 1, q 0 1); IFresh (q 1 1, q 0 1, q 0 1); IFresh (q 0 1, q 2 1, q 0 1)] [] [] [] corn0 (-1);
+  [ ONew false [IFresh (q 0 1, q 0 1, q 0 1); IFresh (q 1 1, q 0 1, q 0 1); IFresh (q 0 1, q 2 1, q 0 1)] [] [] [] corn0 (-1);
     OFromArrays 0 [[0;1];[1;2];[0;2]]%Z [[0;1;2]]%Z [] (mkcorn [0;1;2] [0;0;0] [] [] [] [])%Z 2;
     OMerge [1%nat; 1%nat];
     OCopy 2 false;
@@ -54,6 +54,11 @@ Proof.
   - intros w1 _. repeat (split; [exact I|intros ? _]). exact I.
 Qed.
 
+Example ex_hist_fresh : fresh_hist QcO (w0 (T:=Qc)) ex_hist.
+Proof.
+  cbn [fresh_hist ex_hist]. split; [repeat constructor|]. intros w1 _. repeat (split; [exact I|intros ? _]). exact I.
+Qed.
+
 Example ex_invariant : forall w, run QcO (w0 (T:=Qc)) ex_hist = Some w -> wf w.
 Proof. intros w H. eapply invariant_all_histories; eauto using wf_w0, ex_hist_ok. Qed.
 
@@ -66,14 +71,15 @@ Example shared_buffer_moves_twice :
              /\ obj_coords QcO w' 0 = [(q 3 1, q 0 1, q 0 1); (q 3 1, q 0 1, q 0 1)].
 Proof. eexists. split; vm_compute; reflexivity. Qed.
 
-(* FINDING (known, not repaired here): producers that hand the SOURCE's vectors to their result - boundary extraction,
-   subdivision; the procedural generators do the same with the caller's point arguments. In the model such a result is an
-   object on shared cells (ONew with IShare); a transform of the result then moves the source. Witness: a triangle, its
+(* Necessity of the freshness hypothesis of Proofs_Sep (and the mechanism of the defects repaired by 84375c8 / b7d8427:
+   boundary extraction, subdivision and the procedural generators handed the source's / caller's vectors to their result).
+   A result that bypasses prepare() and stores the source's own vectors is an object on shared cells (ONew false with
+   IShare); a transform of the result then moves the source. Witness: a triangle, its
    boundary polyline on the same three buffers, translate the boundary by (1,0,0). *)
 Definition alias_hist : list (op (T:=Qc)) :=
-  [ ONew [IFresh (q 0 1, q 0 1, q 0 1); IFresh (q 1 1, q 0 1, q 0 1); IFresh (q 0 1, q 1 1, q 0 1)]
+  [ ONew false [IFresh (q 0 1, q 0 1, q 0 1); IFresh (q 1 1, q 0 1, q 0 1); IFresh (q 0 1, q 1 1, q 0 1)]
          [[0;1];[1;2];[0;2]]%Z [[0;1;2]]%Z [] (mkcorn [0;1;2] [0;0;0] [] [] [] [])%Z 2;
-    ONew [IShare 0 0; IShare 0 1; IShare 0 2] [[0;1];[1;2];[0;2]]%Z [] [] corn0 1 ].
+    ONew false [IShare 0 0; IShare 0 1; IShare 0 2] [[0;1];[1;2];[0;2]]%Z [] [] corn0 1 ].
 Lemma derived_alias_moves_the_source :
   exists (w1 w2 : world (T:=Qc)) o i j,
     run QcO (w0 (T:=Qc)) alias_hist = Some w1 /\ wf w1 /\ ok_hist QcO (w0 (T:=Qc)) alias_hist
